@@ -52,10 +52,11 @@ type World struct {
 	Conns     map[int]*Client
 	Topics    map[string][]string // client-facing topic string -> level sequence (ground truth)
 	Auth      wasp.AuthenticationHandler
-	Reverse   bool // the gossip network delivers pending broadcasts newest first
-	MemLog    bool // nodes use an in-memory message log (race-detector runs)
-	Quiet     bool // seams do not record (stress runs): only what the driver emits itself
-	AuditDown bool // the nodes' audit sink is unreachable: every RecordEvent fails (it is a side channel and must not matter)
+	Reverse   bool   // the gossip network delivers pending broadcasts newest first
+	MemLog    bool   // nodes use an in-memory message log (race-detector runs)
+	Quiet     bool   // seams do not record (stress runs): only what the driver emits itself
+	AuditDown bool   // the nodes' audit sink is unreachable: every RecordEvent fails (it is a side channel and must not matter)
+	Gates     *Gates // scheduler gates at the replicated-state calls (only with build tag "gates")
 
 	cnt    map[string]int // hook counters
 	cntCh  chan struct{}
@@ -73,7 +74,7 @@ type GossipMsg struct {
 
 func NewWorld(r *rec.Recorder) *World {
 	w := &World{R: r.Child(), Clock: vpipe.NewClock(), Epoch: time.Now(), Nodes: map[int]*Node{}, Conns: map[int]*Client{},
-		Topics: map[string][]string{}, cnt: map[string]int{}, cntCh: make(chan struct{}, 1)}
+		Topics: map[string][]string{}, cnt: map[string]int{}, cntCh: make(chan struct{}, 1), Gates: newGates()}
 	wasp.VerifHook = w.hook
 	return w
 }
@@ -288,6 +289,7 @@ func (w *World) AddNodePrefilled(id int, pre *Prefill) (*Node, error) {
 	} else {
 		n.State = distributed.NewState(uint64(id), n.Bcast, audit.NoneRecorder())
 	}
+	n.State = wrapState(n.State, w.Gates)
 	n.Dist = &wasp.PublishDistributor{ID: uint64(id), State: n.State.Subscriptions(), Storage: n.Log, Logger: zap.NewNop(), Transport: netTransport{n}}
 	n.Queue = &queueWrap{n: n, real: ack.NewQueue()}
 	n.Writer = wasp.NewWriter(uint64(id), n.State.Subscriptions(), n.Local, n.Queue)
@@ -413,21 +415,25 @@ func (l *logWrap) Append(p *packet.Publish) error {
 	l.mu.Lock()
 	defer l.mu.Unlock()
 	var err error
-	if l.failNext > 0 {
-		l.failNext--
-		err = errors.New("injected: log append failed")
-	} else {
-		err = l.real.Append(p)
-	}
-	off := int64(-1)
-	if err == nil {
-		off = int64(l.next)
-		l.next++
-		l.appended++
-	}
 	mount, lv := l.n.W.SplitMounted(string(p.Topic))
-	l.n.W.R.Emit(rec.Ev{"op": "log.append", "n": l.n.ID, "off": off, "mount": mount, "t": lv, "p": PayloadID(p.Payload), "q": p.Header.Qos,
-		"r": p.Header.Retain, "ok": err == nil})
+	// the append and its event are one critical section of the recorder: the log consumer runs on another goroutine and
+	// may hand the entry to the writer at once - whatever it records then (log.consume, srv.write) comes after this event
+	l.n.W.R.Do(func() rec.Ev {
+		if l.failNext > 0 {
+			l.failNext--
+			err = errors.New("injected: log append failed")
+		} else {
+			err = l.real.Append(p)
+		}
+		off := int64(-1)
+		if err == nil {
+			off = int64(l.next)
+			l.next++
+			l.appended++
+		}
+		return rec.Ev{"op": "log.append", "n": l.n.ID, "off": off, "mount": mount, "t": lv, "p": PayloadID(p.Payload), "q": p.Header.Qos,
+			"r": p.Header.Retain, "ok": err == nil}
+	})
 	return err
 }
 func (l *logWrap) FailNext(k int) { l.mu.Lock(); l.failNext = k; l.mu.Unlock() }
